@@ -34,7 +34,34 @@ def runs(stream):
     return out
 
 
+def falsy_variant(p, stream, tk):
+    """The same stream with integer frames where every invalid frame is the falsy value 0: same token positions."""
+    ST, SDS, DS = load()
+
+    class Ints(DS):
+        def __init__(self, s):
+            self.fr, self.i = [2 if c.isupper() else 0 for c in s], 0
+
+        def read(self):
+            if self.i >= len(self.fr):
+                return None
+            self.i += 1
+            return self.fr[self.i - 1]
+    try:
+        t = ST(lambda x: x == 2, p["m"], p["M"], p["s"], p.get("i0", 0), p.get("ims", 0), p.get("mode", 0))
+        got = [(list(d), a, b) for d, a, b in t.tokenize(Ints(stream))]
+    except Exception as e:  # noqa
+        return "tokenize on integer frames (0 = invalid) raised %s" % type(e).__name__
+    exp = [([2 if c.isupper() else 0 for c in d], a, b) for d, a, b in tk]
+    if got != exp:
+        return "with integer frames (invalid frame = 0) the tokens are %r, expected %r" % (got[:3], exp[:3])
+    return None
+
+
 def check_C01(p, stream, tk):
+    r0 = falsy_variant(p, stream, tk)
+    if r0:
+        return r0
     # the same stream once more with multi-character frames ("every frame type")
     ST, SDS, DS = load()
 
@@ -136,6 +163,9 @@ def spec_C04(p, stream):
 
 
 def check_C04(p, stream, tk):
+    r0 = falsy_variant(p, stream, tk)
+    if r0:
+        return r0
     if p.get("i0", 0) > 1:
         return None
     exp = spec_C04(p, stream)
@@ -212,6 +242,27 @@ def check_C20(p, stream, tk, ST=None, SDS=None, first=None, consume=None):
                 next(g)
             except StopIteration:
                 break
+    if consume is not None and consume >= 1:
+        # the abandoned generator of the earlier use is closed while the new run is in progress
+        t3 = mk(ST, p)
+        g1 = t3.tokenize(SDS(first), generator=True)
+        for _ in range(consume):
+            try:
+                next(g1)
+            except StopIteration:
+                break
+        g2 = t3.tokenize(SDS(stream), generator=True)
+        got3 = []
+        try:
+            got3.append(next(g2))
+        except StopIteration:
+            pass
+        g1.close()
+        got3 += list(g2)
+        got3 = [(list(d), a, b) for d, a, b in got3]
+        if got3 != fresh:
+            return "earlier generator on %r (consumed=%r) closed after the first token of the new run: the new run gives %r, a fresh " \
+                   "tokenizer %r" % (first, consume, got3, fresh)
     again = [(list(d), a, b) for d, a, b in t.tokenize(SDS(stream))]
     if again != fresh:
         return "after an earlier run on %r (consumed=%r) the tokenizer gives %r, a fresh one %r" % (
@@ -327,6 +378,24 @@ def pre_check(pid):
             if Counting.asked > nblocks * 10:
                 return "split(max_read=%r): %d samples requested from the input in total, the limit is %d" % (
                     nblocks * 0.01, Counting.asked, nblocks * 10)
+        # end of stream is requested from the input exactly once, also when the last window is a partial one
+        class CountNone(BufferAudioSource):
+            nones = 0
+
+            def read(self, size):
+                r = BufferAudioSource.read(self, size)
+                if r is None:
+                    CountNone.nones += 1
+                return r
+        for extra in (0, 6):
+            CountNone.nones = 0
+            src = CountNone(sig + b"\x10\x27" * (extra // 2), 1000, 2, 1)
+            rd = AudioReader(src, block_dur=0.01)
+            rd.open()
+            list(split(rd, **kw))
+            if CountNone.nones != 1:
+                return "split() on an input of %d samples (window 10): end of stream requested %d times from the input" % (
+                    (len(sig) + extra) // 2, CountNone.nones)
         # overlapping windows: when a region is yielded the input has not been asked for more than the window
         # that decides it
         for hop in (0.005, 0.002):
@@ -384,6 +453,17 @@ def pre_check(pid):
                     return "recorder with max_read=%r (longer than the stream), split number %d: %d regions, expected %d" % (
                         mr, k + 1, len(got), len(ref))
                 rec.rewind()
+        # a two-channel recorder keeps its format across rewinds
+        st_sig = b"".join(sig[i:i + 2] * 2 for i in range(0, len(sig), 2))
+        ref2 = [(round(r.start * 1000), r.ch, bytes(r)) for r in split(st_sig, sr=1000, sw=2, ch=2, **kw)]
+        rec = AudioReader(st_sig, block_dur=0.01, record=True, sr=1000, sw=2, ch=2)
+        rec.open()
+        for k in range(3):
+            got = [(round(r.start * 1000), r.ch, bytes(r)) for r in split(rec, **{k_: v_ for k_, v_ in kw.items() if k_ != "analysis_window"})]
+            if got != ref2:
+                return "two-channel recorder, split number %d: %d regions with %r channels, expected %d with 2" % (
+                    k + 1, len(got), sorted({g[1] for g in got}), len(ref2))
+            rec.rewind()
         for use in (None, 0):
             v = AudioEnergyValidator(50, 2, 1) if use is None else AudioEnergyValidator(50, 2, 2, use_channel=use)
             w1, w2 = (loud, quiet) if use is None else (loud + loud, quiet + quiet)
@@ -403,7 +483,24 @@ def pre_check(pid):
     return None
 
 
+def big_max_length(ST, SDS):
+    """max_length above CPython's small-int cache: a cut on the first tolerated silent frame."""
+    for M in (257, 300):
+        for s in (1, 2):
+            stream = "aa" + "A" * (M - 1) + "a" + "A" * 5 + "aaaa"
+            for d, a, b in ST(str.isupper, 1, M, s, 0, 0, 0).tokenize(SDS(stream)):
+                if len(d) > M:
+                    return {"kind": "tokenizer", "pid": "C02", "params": {"m": 1, "M": M, "s": s, "i0": 0, "ims": 0, "mode": 0},
+                            "stream": stream, "observed": "token (%d,%d) has %d frames > max_length %d" % (a, b, len(d), M)}
+    return None
+
+
 def search(pid, budget, maxlen):
+    if pid in ("C02", "C06"):
+        ST_, SDS_, _ = load()
+        wb = big_max_length(ST_, SDS_)
+        if wb:
+            return wb, 1
     r0 = pre_check(pid)
     if r0:
         return {"kind": "tok-api", "pid": pid, "observed": r0}, 1
